@@ -31,6 +31,7 @@ type dictPair struct {
 	valNull bool
 	valQual bool
 	mkVal   func() jen.Code
+	twinOf  int // >0: this pair is a second, distinct pair whose key AND value render like those of pair twinOf-1
 }
 
 func dictKeyPool(r *rand.Rand, i int) (kind, text string, mk func() jen.Code) {
@@ -145,6 +146,16 @@ func genDict(r *rand.Rand) []dictPair {
 			ps[k].keyText, ps[k].keyKind, ps[k].mkKey = ps[j].keyText, ps[j].keyKind+"-dup", ps[j].mkKey
 		}
 	}
+	// pairs that render identically altogether (distinct Code values, same key text, same value text): a map
+	// literal with non-constant keys may hold them, and each is a pair of its own
+	if n >= 2 && r.Intn(6) == 0 {
+		j, k := r.Intn(n), r.Intn(n)
+		if j != k && ps[j].keyText != "" && !ps[j].valNull && ps[j].twinOf == 0 && ps[k].twinOf == 0 {
+			pj := ps[j]
+			pj.keyKind, pj.twinOf = ps[j].keyKind+"-twin", j+1
+			ps[k] = pj
+		}
+	}
 	return ps
 }
 
@@ -157,6 +168,9 @@ func dictDesc(ps []dictPair) string {
 			k = "<null>"
 		}
 		v := fmt.Sprintf("val_%d", i)
+		if p.twinOf > 0 {
+			v = fmt.Sprintf("val_%d", p.twinOf-1)
+		}
 		if p.valNull {
 			v = "<null>"
 		}
@@ -278,9 +292,15 @@ func judgeDict(ps []dictPair, formatted, raw []byte) []string {
 		return []string{"raw: " + e2}
 	}
 	want := map[string]string{} // value marker -> canonical key
+	wantN := map[string]int{}   // value marker -> number of pairs carrying it (2 for a pair and its twin)
 	for i, p := range ps {
 		if p.keyText != "" && !p.valNull {
-			want[fmt.Sprintf("val_%d", i)] = canonText(p.keyText)
+			m := fmt.Sprintf("val_%d", i)
+			if p.twinOf > 0 {
+				m = fmt.Sprintf("val_%d", p.twinOf-1)
+			}
+			want[m] = canonText(p.keyText)
+			wantN[m]++
 		}
 	}
 	for name, o := range map[string]*dictObs{"formatted": of, "raw": or} {
@@ -298,8 +318,8 @@ func judgeDict(ps []dictPair, formatted, raw []byte) []string {
 		for v := range want {
 			if seen[v] == 0 {
 				probs = append(probs, fmt.Sprintf("%s: pair with value %s is missing", name, v))
-			} else if seen[v] > 1 {
-				probs = append(probs, fmt.Sprintf("%s: pair with value %s rendered %d times", name, v, seen[v]))
+			} else if seen[v] != wantN[v] {
+				probs = append(probs, fmt.Sprintf("%s: pair with value %s rendered %d times, want %d", name, v, seen[v], wantN[v]))
 			}
 		}
 	}
@@ -531,7 +551,7 @@ func c16IntCase(r *mon.Run, idx int64) {
 }
 
 func runC16(r *mon.Run) {
-	r.SetRule("random Dicts of 0-40 pairs; keys from literals, identifiers (incl. prefix-related a/ab/a.b/a[0]/aZ), calls, qualified identifiers, composite and binary expressions, forced render-identical duplicates, null keys/values (Null(), Add(), List(), typed nil, Tag(nil)); every value is a unique marker; rendered formatted, NoFormat and via DictFunc; non-trivial = >=2 pairs with both sides non-null; distinct by Dict text")
+	r.SetRule("random Dicts of 0-40 pairs; keys from literals, identifiers (incl. prefix-related a/ab/a.b/a[0]/aZ), calls, qualified identifiers, composite and binary expressions, forced render-identical duplicate keys, and pairs whose key and value both render identically, null keys/values (Null(), Add(), List(), typed nil, Tag(nil)); every value is a unique marker; rendered formatted, NoFormat and via DictFunc; non-trivial = >=2 pairs with both sides non-null; distinct by Dict text")
 	r.Assume("'ordered by the rendered text of their keys' admits both the text as written and the text after gofmt; nil interface keys/values are API misuse and not generated")
 	c16NegControls(r)
 	n := r.Pick(12000, 1500000)
